@@ -99,6 +99,7 @@ static void c06_run(void) {
 	g.min_queues = 1; g.max_queues = 3; g.inactive_pct = 30;
 	g.nest_pct = 45; g.nest_depth = 2;
 	g.suspend_depth_max = g_chance(1, 4) ? 200 : 8;
+	g.suspend_inactive = g_chance(1, 2);
 	g.min_clients = 2; g.max_clients = 4; g.min_ops = 3; g.max_ops = (RC.cfg & CFG_THOROUGH) ? 10 : 7;
 	g.bodymask |= 1u << B_SLEEP;
 	qprog_run(&g);
